@@ -78,6 +78,16 @@ func build(s configopaque.String) (inner, keyed) {
 	return in, keyed{K: map[configopaque.String]string{s: "v"}}
 }
 
+type badEntry struct {
+	Limit int `mapstructure:"limit"`
+}
+
+func (*badEntry) Validate() error { return errors.New("limit must be positive") }
+
+type keyedCfg struct {
+	Tokens map[configopaque.String]*badEntry `mapstructure:"tokens"`
+}
+
 // needles returns the secret and its standard transforms.
 func needles(sec string) []string {
 	q := strconv.Quote(sec)
@@ -301,6 +311,10 @@ func encoders(s configopaque.String, in inner, kd keyed, emit func(rendering)) {
 	gc := &configgrpc.ClientConfig{Endpoint: "127.0.0.1:1", Headers: in.M, BalancerName: "no_such_balancer"}
 	emit(rendering{"error", "configgrpc.ClientConfig.Validate", "grpc.ClientConfig", "", errText(gc.Validate()), false})
 	emit(rendering{"error", "xconfmap.Validate(grpc.ClientConfig)", "grpc.ClientConfig", "", errText(xconfmap.Validate(gc)), false})
+	// a configuration map keyed by the secret (tenant tokens -> settings) with an invalid entry: the path in the error
+	// names the entry
+	kc := &keyedCfg{Tokens: map[configopaque.String]*badEntry{in.S: {}}}
+	emit(rendering{"error", "xconfmap.Validate(map keyed by the opaque string, invalid entry)", "map[opaque]struct", "", errText(xconfmap.Validate(kc)), false})
 	// a request through the real client: header values net/http rejects produce an error the exporter logs
 	okc := &confighttp.ClientConfig{Endpoint: "http://127.0.0.1:1", Headers: in.M}
 	if cl, err := okc.ToClient(context.Background(), componenttest.NewNopHost(), componenttest.NewNopTelemetrySettings()); err != nil {
@@ -733,6 +747,7 @@ func run(c *driver.Ctx) {
 		usedConfigs(in, emit)
 		marshalIntoSource(sec, emit)
 		positives(c, sec)
+		refPositives(c, rng, sec)
 		if i == 0 {
 			c.Sample(map[string]any{"secret_class": class, "secret": sec, "renderings_per_path": paths,
 				"example": fmt.Sprintf("Sprintf(%%+#10.3x, struct) = %q", fmt.Sprintf("%+#10.3x", in))})
